@@ -89,10 +89,13 @@ func (d *updogDriver) openFile(file string, optValues url.Values) (driver.Conn, 
 		opts = append(opts, updog.WithCache(lruCache))
 	}
 
-	d.fileConnMtx.RLock()
-	conn, ok := d.fileConnCache[key]
-	d.fileConnMtx.RUnlock()
+	// Looking up the cached connection, opening the index and inserting the new
+	// connection must be one critical section: the index file is locked exclusively,
+	// so a second concurrent open of the same file would block forever.
+	d.fileConnMtx.Lock()
+	defer d.fileConnMtx.Unlock()
 
+	conn, ok := d.fileConnCache[key]
 	if ok {
 		conn.refs.Add(1)
 		return conn, nil
@@ -105,11 +108,11 @@ func (d *updogDriver) openFile(file string, optValues url.Values) (driver.Conn, 
 
 	conn = &fileConn{
 		idx: idx,
+		d:   d,
+		key: key,
 	}
 
-	d.fileConnMtx.Lock()
 	d.fileConnCache[key] = conn
-	d.fileConnMtx.Unlock()
 
 	conn.refs.Add(1)
 
@@ -127,6 +130,9 @@ func (d *updogDriver) openConn(host string, port string) (driver.Conn, error) {
 
 type fileConn struct {
 	idx *updog.Index
+
+	d   *updogDriver
+	key fileCacheKey
 
 	refs atomic.Int32
 }
@@ -148,9 +154,23 @@ func (c *fileConn) prepare(query string) (*fileStmt, error) {
 }
 
 func (c *fileConn) Close() error {
+	c.d.fileConnMtx.Lock()
+	defer c.d.fileConnMtx.Unlock()
+
 	if c.refs.Add(-1) <= 0 {
+		// the last reference is gone: forget the connection before closing the index,
+		// so that the next open of the same file creates a fresh one.
+		if c.d.fileConnCache[c.key] == c {
+			delete(c.d.fileConnCache, c.key)
+		}
+
 		idx := c.idx
+		if idx == nil {
+			return nil
+		}
+
 		c.idx = nil
+
 		return idx.Close()
 	}
 
